@@ -322,6 +322,10 @@ func parseClause(rest, where string, props []string) (*Clause, error) {
 		c.Label = m[1]
 		rest = rest[len(m[0]):]
 	}
+	if m := regexp.MustCompile(`^\[((?:C\d+[ ,]*)+)\]\s*`).FindStringSubmatch(rest); m != nil {
+		c.Props = strings.FieldsFunc(m[1], func(r rune) bool { return r == ' ' || r == ',' })
+		rest = rest[len(m[0]):]
+	}
 	c.Src = strings.TrimSpace(rest)
 	e, err := parseSpecExpr(c.Src)
 	if err != nil {
